@@ -17,10 +17,10 @@ func init() {
 			"that the body handed to the appender is taken from the read buffer only after the read's error was tested, that a forced error and the end-of-run path emit stale markers the same way, " +
 			"and that both append implementations honour the same obligations: empty body ⇒ stale markers and cache swap without flush; cache flush only on success; dropped-series cache consulted first; " +
 			"a timestamp discarded by honor_timestamps=false is discarded before anything else looks at it; every staleness-tracking site depends on the absence of an explicit timestamp; limit errors are collected by checkAddError, reported after the loop with the sample limit first; stale markers for vanished series only if the body was ingested without error; every parser entry kind is handled.",
-		Note:     "Trusted: go/packages, go/types, go/cfg; rule tables in checker/c37.go.  The two appenders legitimately differ in where they track staleness; the rule is must-depend-on, not same-guard.",
-		Covers:   "scrapeLoop.scrapeAndReport, endOfRunStaleness, scrapeLoopAppender.append, scrapeLoopAppenderV2.append, updateStaleMarkers{,V2}.",
-		NotCover: "the scrape cache's bookkeeping values, report sample values, relabeling results, timing of end-of-run staleness.",
-		Run:      runC37,
+		Note:           "Trusted: go/packages, go/types, go/cfg; rule tables in checker/c37.go.  The two appenders legitimately differ in where they track staleness; the rule is must-depend-on, not same-guard.",
+		Covers:         "scrapeLoop.scrapeAndReport, endOfRunStaleness, scrapeLoopAppender.append, scrapeLoopAppenderV2.append, updateStaleMarkers{,V2}.",
+		NotCover:       "the scrape cache's bookkeeping values, report sample values, relabeling results, timing of end-of-run staleness.",
+		Run:            runC37,
 		MinObligations: 70,
 	})
 }
@@ -122,7 +122,10 @@ func runC37(c *eng.Ctx) {
 		fe.DomOK("R4", staleCall)
 		fe.DomOK("R4", iterDone.WithArg(0, "false", eng.IsIdent("false")))
 		fe.Unreachable("R4", p.Call("model/textparse:New"))
-		f.Only("R4", iterDone, "is iterDone(false) on the empty-body path", func(l eng.Loc) bool { a := eng.CallArgsText(l); return len(a) == 1 && a[0] == "false" && f.UnderCond(l, "len(b) == 0") })
+		f.Only("R4", iterDone, "is iterDone(false) on the empty-body path", func(l eng.Loc) bool {
+			a := eng.CallArgsText(l)
+			return len(a) == 1 && a[0] == "false" && f.UnderCond(l, "len(b) == 0")
+		})
 		// non-empty body: flush only on success (deferred, guarded by err)
 		fn := f.GivenBranch("len(b) == 0", false)
 		f.Has("R4", eng.Deferred(iterDone.WithArg(0, "true", eng.IsIdent("true"))), 1)
